@@ -234,6 +234,23 @@ pub fn special_shapes(c: &mut Ctx) -> Vec<(String, String)> {
             if c.is_ok(&r) { out.push((format!("node-with-{}-subject", &act[..5]), r)); }
         }
     }
+    // an assertion under two layers of decoration ({ {P:O} [a] } [b], reachable by encrypting a decorated assertion whole, annotating it and
+    // decrypting its subject), with the core in clear and obscured; and a node under a node whose innermost subject is compressed
+    {
+        let extra2 = gen_assertion(c, &cfg, 0);
+        let n = hex::encode(c.rng.bytes(12));
+        let enc = c.assign(&format!("encrypt {} {} {}", dec, KEY2, n));      // wrap + encrypt_subject
+        let inner_enc = c.assign(&format!("elide_set {} rem encrypt:{} {}", dec, KEY2, dec));   // the decorated assertion as one encrypted element
+        let _ = enc;
+        let annotated = c.assign(&format!("add {} {}", inner_enc, extra2));
+        let two = c.assign(&format!("decrypt_subject {} {}", annotated, KEY2));
+        if c.is_ok(&two) {
+            let s2 = gen_leaf(c, &cfg);
+            let h2 = c.assign(&format!("add {} {}", s2, two));
+            if c.is_ok(&h2) { out.push(("assertion-under-two-decorations".into(), h2.clone()));
+                for act in ["elide".to_string(), "compress".to_string()] { let r = c.assign(&format!("elide_set {} rem {} {}", h2, act, core)); if c.is_ok(&r) { out.push((format!("two-decorations-core-{}", &act[..5]), r)); } } }
+        }
+    }
     let twins = c.assign(&format!("add {} {}", host, core));
     if c.is_ok(&twins) { out.push(("twin-assertions".into(), twins)); }
     // node whose subject is a node: compress the inner node, add to it, inflate the subject again
@@ -242,7 +259,16 @@ pub fn special_shapes(c: &mut Ctx) -> Vec<(String, String)> {
     let zn = c.assign(&format!("add {} {}", z, extra));
     if c.is_ok(&zn) { out.push(("node-with-compressed-node-subject".into(), zn.clone())); }
     let nn = c.assign(&format!("uncompress_subject {}", zn));
-    if c.is_ok(&nn) { out.push(("node-with-node-subject".into(), nn.clone())); let w = c.assign(&format!("wrap {}", nn)); out.push(("wrapped-node-with-node-subject".into(), w)); }
+    if c.is_ok(&nn) { out.push(("node-with-node-subject".into(), nn.clone())); let w = c.assign(&format!("wrap {}", nn)); out.push(("wrapped-node-with-node-subject".into(), w));
+        // ... whose innermost subject is compressed / elided (the outer subject - a node - is not)
+        let innermost = c.assign(&format!("at {} s/s", nn));
+        if c.is_ok(&innermost) { for act in ["compress", "elide"] { let r = c.assign(&format!("elide_set {} rem {} {}", nn, act, innermost)); if c.is_ok(&r) { out.push((format!("node-under-node-core-{}", &act[..5]), r)); } } } }
+    // ... and one where the outer node repeats an assertion the inner node makes (legal: they are elements of different nodes)
+    {
+        let zs = c.assign(&format!("add {} {}", zn, other));
+        let ns = c.assign(&format!("uncompress_subject {}", zs));
+        if c.is_ok(&ns) { out.push(("node-under-node-shared-assertion".into(), ns)); }
+    }
     // an object that is a wrapped node with an obscured part
     if let Some((name, first)) = out.first().cloned() { let w = c.assign(&format!("wrap {}", first)); let p = gen_leaf(c, &cfg); let a = c.assign(&format!("assertion {} {}", p, w)); let s = gen_leaf(c, &cfg); let h = c.assign(&format!("add {} {}", s, a)); if c.is_ok(&h) { out.push((format!("object-wrapping-{}", name), h)); } }
     for (n, _) in &out { c.count(&format!("special:{}", n)); }
